@@ -4,6 +4,9 @@
 #include "common.h"
 #include "algops.h"
 #include "csops.h"
+#ifdef VERIF_WITH_GEO
+#include "geoops.h"
+#endif
 #ifdef VERIF_WITH_LUA
 #include "luamodel/luamodel.h"
 #include <fstream>
@@ -447,6 +450,9 @@ static void process_line(State &s, const std::string &line) {
         else if (!out.empty()) emit(s, cmd, out);
       }
       else if (cmd == "alg") { std::string r = algOp(t); size_t sp = r.find(' '); emit(s, "alg." + r.substr(0, sp), r.substr(sp + 1)); }
+#ifdef VERIF_WITH_GEO
+      else if (cmd == "geo") { std::string r = geoOp(t); size_t sp = r.find(' '); emit(s, "geo." + r.substr(0, sp), r.substr(sp + 1)); }
+#endif
       else if (cmd == "poison") poisonModel(*s.m, t.nat());
       else if (cmd == "call") doCall(s, t);
       else emit(s, cmd, "bad-op");
